@@ -413,6 +413,32 @@ func validateArbitraryData(ms *MidState, txn types.Transaction) error {
 	return nil
 }
 
+// coveredFieldsInRange reports whether every index in cf that is used when
+// computing the signature hash refers to an existing field of txn.
+func coveredFieldsInRange(txn types.Transaction, cf types.CoveredFields) bool {
+	inRange := func(indices []uint64, n int) bool {
+		for _, i := range indices {
+			if i >= uint64(n) {
+				return false
+			}
+		}
+		return true
+	}
+	if cf.WholeTransaction {
+		return inRange(cf.Signatures, len(txn.Signatures))
+	}
+	return inRange(cf.SiacoinInputs, len(txn.SiacoinInputs)) &&
+		inRange(cf.SiacoinOutputs, len(txn.SiacoinOutputs)) &&
+		inRange(cf.FileContracts, len(txn.FileContracts)) &&
+		inRange(cf.FileContractRevisions, len(txn.FileContractRevisions)) &&
+		inRange(cf.StorageProofs, len(txn.StorageProofs)) &&
+		inRange(cf.SiafundInputs, len(txn.SiafundInputs)) &&
+		inRange(cf.SiafundOutputs, len(txn.SiafundOutputs)) &&
+		inRange(cf.MinerFees, len(txn.MinerFees)) &&
+		inRange(cf.ArbitraryData, len(txn.ArbitraryData)) &&
+		inRange(cf.Signatures, len(txn.Signatures))
+}
+
 func validateSignatures(ms *MidState, txn types.Transaction) error {
 	// build a map of all outstanding signatures
 	//
@@ -470,6 +496,9 @@ func validateSignatures(ms *MidState, txn types.Transaction) error {
 			var esig types.Signature
 			copy(epk[:], pk.Key)
 			copy(esig[:], sig.Signature)
+			if !coveredFieldsInRange(txn, sig.CoveredFields) {
+				return fmt.Errorf("signature %v covers a nonexistent field", i)
+			}
 			var sigHash types.Hash256
 			if sig.CoveredFields.WholeTransaction {
 				sigHash = ms.base.WholeSigHash(txn, sig.ParentID, sig.PublicKeyIndex, sig.Timelock, sig.CoveredFields.Signatures)
